@@ -23,6 +23,7 @@ pub mod c19;
 pub mod c20;
 pub mod direct;
 pub mod history;
+pub mod realnet;
 
 pub struct Ctx {
     pub tier: Tier,
